@@ -743,6 +743,12 @@ impl CypherTranslator {
                     } else {
                         Some(self.translate_expression(&args[0])?)
                     };
+                    // count(expr) counts only non-NULL values (count() without argument counts rows)
+                    let function = if function == AggregateFunction::Count && expression.is_some() {
+                        AggregateFunction::CountNonNull
+                    } else {
+                        function
+                    };
                     // Extract percentile parameter for percentile functions
                     let percentile = if matches!(
                         function,
